@@ -152,7 +152,7 @@ Definition liq_contains (l r : val) : res bool :=
        | VList xs => Ok (existsb (fun x => member_eq x r) xs)
        | VDict d => match r with
                     | VStr k => Ok (existsb (fun p => str_eqb (fst p) k) d)
-                    | VList _ | VDict _ | VEmpty | VBlank => Err ETypeError   (* `unhashable in dict`: a bare TypeError escapes (see C02) *)
+                    | VList _ | VDict _ | VEmpty | VBlank => Ok false   (* an unhashable right operand is not a key (before the C02 repair the bare TypeError of `unhashable in dict` escaped) *)
                     | _ => Ok false
                     end
        | VRange a b => Ok (in_range r a b)
